@@ -94,3 +94,50 @@ Theorem C17_announce_is_recorded : forall cfg cut ae k y who c rq y' msgs,
     /\ (q_stopped rq = false -> aget N.eqb (q_hash rq) (sc_announced c') = Some (q_pid rq)).
 Proof. exact announce_is_recorded. Qed.
 Print Assumptions C17_announce_is_recorded.
+
+(* ---- closed ones leave no peers: the invariant ---- *)
+From Aquatic Require Import WsOwnFacts.
+
+(* [Own]: every peer entry of every swarm worker belongs to a LIVE connection of its address
+   family whose clean-up record names exactly that (torrent, peer id), and sits in the worker the
+   torrent routes to.  It holds initially and is preserved by every action - open, announce
+   (accepted, ignored under the ownership rule, stopped, refused for a second peer id), scrape,
+   invalid message, close - for every number of swarm workers, provided the socket workers hand
+   over requests with the identity and family of the connection they arrived on. *)
+Theorem C17_invariant_initially : forall k, Own k (wsys_init k).
+Proof. exact Own_init. Qed.
+Print Assumptions C17_invariant_initially.
+
+Theorem C17_invariant_preserved : forall cfg cut ae k y who a y' msgs, (0 < k)%nat ->
+  Own k y -> action_wf y who a -> wsys_step cfg cut ae k y who a = Ok (y', msgs) -> Own k y'.
+Proof. exact Own_step. Qed.
+Print Assumptions C17_invariant_preserved.
+
+Theorem C17_invariant_along_every_history : forall cfg cut ae k, (0 < k)%nat -> forall acts y y' ms,
+  Own k y -> run_wf cfg cut ae k y acts -> wsys_run cfg cut ae k y acts = Ok (y', ms) -> Own k y'.
+Proof. exact Own_run. Qed.
+Print Assumptions C17_invariant_along_every_history.
+
+(* no action can make a swarm worker fail *)
+Theorem C17_step_total : forall cfg cut ae k y who a, (0 < k)%nat -> Own k y ->
+  exists y' msgs, wsys_step cfg cut ae k y who a = Ok (y', msgs).
+Proof. exact wsys_step_total. Qed.
+Print Assumptions C17_step_total.
+
+(* when a connection closes - or is refused for a second peer id - NO swarm worker holds a peer
+   entry created by it any more, without any further message from the client *)
+Theorem C17_closed_leaves_no_peers : forall cfg cut ae k y who y' msgs, (0 < k)%nat ->
+  Own k y -> wsys_step cfg cut ae k y who CClose = Ok (y', msgs) ->
+  forall j f h t pid p, (j < k)%nat ->
+    aget N.eqb h (wfam (yget (y_workers y') j) f) = Some t -> aget N.eqb pid (wt_peers t) = Some p -> owner p <> who.
+Proof. exact closed_leaves_no_peers. Qed.
+Print Assumptions C17_closed_leaves_no_peers.
+
+Theorem C17_refused_leaves_no_peers : forall cfg cut ae k y who c rq pid' y' msgs, (0 < k)%nat ->
+  Own k y -> find_conn who (y_conns y) = Some c ->
+  aget N.eqb (q_hash rq) (sc_announced c) = Some pid' -> pid' <> q_pid rq ->
+  wsys_step cfg cut ae k y who (CAnnounce rq) = Ok (y', msgs) ->
+  forall j f h t pid p, (j < k)%nat ->
+    aget N.eqb h (wfam (yget (y_workers y') j) f) = Some t -> aget N.eqb pid (wt_peers t) = Some p -> owner p <> who.
+Proof. exact refused_leaves_no_peers. Qed.
+Print Assumptions C17_refused_leaves_no_peers.
